@@ -14,6 +14,6 @@ Conforms == /\ Rec.kind = Kind                 \* the driver evaluated the term 
             /\ Rec.all_match                     \* every entry equals the evaluated term (or literally the penalty / zero)
             /\ Rec.all_finite                    \* never NaN or infinity
             /\ Rec.layouts_match                 \* broadcasting layouts used by the models (scalar / per-feature scale, several events)
-            /\ Rec.routes_agree                  \* the values handed out together with their derivative are the same values
+            /\ Rec.routes_agree                  \* the values handed out together with their derivative are the same values; hazard = exp(LogHazard), log-survival = -Survival
 Covered == IOEnv.EXPECT_COUNT = "0" \/ Cardinality({<<TLog[i].fam, TLog[i].cens, TLog[i].pos, TLog[i].shp, TLog[i].src, TLog[i].yb, TLog[i].pb>> : i \in 1..Len(TLog)}) = atoi(IOEnv.EXPECT_COUNT)
 =============================================================================
